@@ -3,8 +3,9 @@ import random
 from props.gossip_common import *
 from props.C02 import Tracker, ekey
 
+from props import round_probe
 ID = "C03"
-COQ_TARGETS = ["Run/Run_Gossip.vo"]
+COQ_TARGETS = ["Run/Run_Gossip.vo", "Run/Run_Round.vo"]
 META = {
     "text": "Theorems (Properties/C03.v) over the Gallina world model: a caught-up view equals the owner's state exactly (keys, values, tombstones, version); no step of the world other than a local write ever increases the total deficit PsiAll or moves any reported version backwards (loss, duplication, reordering, truncation, relays, streams included); one complete digest/delta exchange a <- b on a quiet network, composed from the real handlers (WSend + deliveries), strictly decreases PsiAll whenever a is behind b's own state, a's digest lists b and the first entry of the reply fits (C03_pull_makes_progress: whatever node the cut reply starts with - id closure of the cluster is proved as an invariant); hence ANY sequence of at least PsiAll all-pairs rounds of such exchanges ends with PsiAll = 0 and a quiet network (C03_rounds_converge), and PsiAll = 0 means every view IS the owner's state (C03_converged_views); a concrete two-node instance satisfies every hypothesis (C03_rounds_example). The same schedules are run on the REAL nodes on every run: after a random lossy/compacting prefix and a backlog of mixed-size entries larger than one packet, all-pairs rounds of loss-free exchanges with packet sizes 215..1400; an independent monitor checks the deficit never increases, strictly decreases every round until all live views equal the owners' states, and model and implementation agree on every packet and view.",
     "note": "Partial: that the running node's random peer selection and timers produce such a schedule (fairness), and exchanges overlapping in time, are not modelled (for arbitrary interleavings only no-regress is proved). An entry larger than max_packet_size - headers blocks dissemination for ever (finding G1, KNOWN_FINDINGS.txt): the theorems carry the hypothesis 'roomy', the witness is replayed on every run.",
@@ -184,6 +185,9 @@ def run(ctx):
     # glue probes (monitor only): the code around the modelled handlers - receive loop, peer selection of gossipRound, heartbeat of a completed exchange
     gv, gcov = glue_probes(ID, binary, wd, rng, quick, which=('burst', 'round', 'heartbeat', 'rediscover'))
     violations += gv
+    # peer selection against the model Gossip/Round.v (real gossipRound on memberships with live, suspected and departed peers)
+    rcov, rv = round_probe.run(ctx, ID, {"round"})
+    violations += rv
     mon = [(c, f) for c, o in zip(cases, outs) for f in [monitor(c, o)] if f]
     okc = [(c, o) for c, o in zip(cases, outs) if not o.get("panic")]
     dis = correspondence(ID, wd, [c for c, _ in okc], [o for _, o in okc])
@@ -225,11 +229,14 @@ def run(ctx):
                               "disagreements": len(dis), "seed": ctx["seed"]},
            "monitor": {"histories": len(cases), "failures": len(mon), "failures_known": len([1 for _, f in mon if f["sig"] in kf])}}
     cov["glue_probes"] = gcov
+    cov["peer_selection_model"] = rcov
     return {"coverage": cov, "violations": violations, "known": known}
 
 
 def replay(path, wd):
     obj = json.load(open(path))
+    if obj.get("kind") == "members":
+        return round_probe.replay(obj, wd)
     case = obj["case"]
     binary = build_harness("pkg/gossip", dirs=["gossip"])
     if replay_glue(obj, binary, wd):
